@@ -8,7 +8,7 @@ Machine = hgm.IdMachine
 PROP = {
     "id": "C16",
     "quick_n": 300,
-    "thorough_n": 4000,
+    "thorough_n": 3000,
     "rule": "one program = a tree whose root region is made of collections / binning nodes with "
             "several children of one spec; one child object is installed at a second position "
             "(siblings, or cousins under different parents), optionally after unrelated trees were "
